@@ -251,3 +251,102 @@ def loop_bound_from_facts(facts, var):
         if pos and op == "lt" and a == var: return c
         if (not pos) and op == "ge" and a == var: return c
     return None
+
+
+def feval(t, env, eng, depth=0):
+    """Read an extracted float / boolean formula at a point: exact evaluation of a small term on
+    given values of its leaves (env: term -> float | bool).  Gated merges are followed through their
+    gate.  No code of the crate is run: the term is what the abstract interpreter derived.
+    Returns None when the term contains something else (calls other than abs/min/max, ungated merges)."""
+    from mir import f64_from_bits
+    if t in env: return env[t]
+    if depth > 40: return None
+    k = t[0]
+    if k == 'c':
+        if t[1] == 'f64': return f64_from_bits(t[2])
+        if t[1] == 'bool': return bool(t[2])
+        return t[2]
+    if k == 'op':
+        a, b = feval(t[3], env, eng, depth + 1), feval(t[4], env, eng, depth + 1)
+        if a is None or b is None: return None
+        op = t[1]
+        try:
+            if op == 'add': return a + b
+            if op == 'sub': return a - b
+            if op == 'mul': return a * b
+            if op == 'div': return a / b if t[2] == 'f64' else None
+            if op == 'lt': return a < b
+            if op == 'le': return a <= b
+            if op == 'gt': return a > b
+            if op == 'ge': return a >= b
+            if op == 'eq': return a == b
+            if op == 'ne': return a != b
+            if op == 'bitand' and isinstance(a, bool) and isinstance(b, bool): return a and b
+            if op == 'bitor' and isinstance(a, bool) and isinstance(b, bool): return a or b
+            if op == 'bitxor' and isinstance(a, bool) and isinstance(b, bool): return a != b
+        except ZeroDivisionError:
+            return None
+        return None
+    if k == 'un':
+        a = feval(t[3], env, eng, depth + 1)
+        if a is None: return None
+        if t[1] == 'not' and isinstance(a, bool): return not a
+        if t[1] == 'neg': return -a
+        return None
+    if k == 'cast':
+        a = feval(t[3], env, eng, depth + 1)
+        if a is None: return None
+        if t[1] == 'int_to_float': return float(a)
+        if t[1] == 'int_to_int' and isinstance(a, bool): return int(a)
+        if t[1] == 'int_to_int': return a
+        return None
+    if k == 'call' and isinstance(t[1], str):
+        nm = t[1].rsplit("::", 1)[-1]
+        args = [feval(x, env, eng, depth + 1) for x in t[2]]
+        if any(x is None for x in args): return None
+        if nm == 'abs' and len(args) == 1: return abs(args[0])
+        if nm == 'min' and len(args) == 2: return min(args)
+        if nm == 'max' and len(args) == 2: return max(args)
+        if nm == 'clamp' and len(args) == 3: return max(args[1], min(args[2], args[0]))
+        return None
+    if k == 'phi':
+        g = eng.phi_gate.get(t)
+        if g is None: return None
+        c = feval(g[0], env, eng, depth + 1)
+        if c is None: return None
+        return feval(g[1] if c else g[2], env, eng, depth + 1)
+    return None
+
+
+def explore_leaves(crate, fn, opaque=(), args=None, max_tests=7, frames=None, models=None):
+    """Every way through the non-constant two-way tests of `fn` (comparisons, boolean places, Option /
+    two-variant discriminants), each forced in turn with Engine.subst.  Returns
+    [(forced: {term: const}, engine, result)], or None when a test is not two-way / too many tests."""
+    from mir import INT_TYS
+    leaves = []
+    state = {"ok": True}
+    def kind(t):
+        if t[0] == 'discr': return 'discr'
+        if t[0] == 'op' and t[1] in CMP: return 'bool'
+        ty = term_ty(t)
+        if ty == 'bool' or ty is None: return 'bool'
+        return None
+    def go(sub, depth):
+        if not state["ok"]: return
+        e = Engine(crate, opaque=opaque, models=models); e.subst = dict(sub)
+        r = e.run(fn, args)
+        nxt = None
+        for t, loc in e.branches:
+            if t in sub: continue
+            if frames is not None and loc[0] not in frames: continue
+            nxt = t; break
+        if nxt is None:
+            leaves.append((dict(sub), e, r)); return
+        k = kind(nxt)
+        if k is None or depth >= max_tests:
+            state["ok"] = False; return
+        for v in (0, 1):
+            s2 = dict(sub); s2[nxt] = ('c', 'bool' if k == 'bool' else 'isize', v)
+            go(s2, depth + 1)
+    go({}, 0)
+    return leaves if state["ok"] else None
